@@ -139,6 +139,10 @@ pub struct BitIter<I: Iterator<Item = u8>> {
     read_bits: usize,
     /// Total number of read bits
     total_read: usize,
+    /// Number of bits that may still be read. `usize::MAX` for an iterator that is
+    /// limited only by its underlying byte iterator; used by [`BitIter::byte_slice_window`]
+    /// whose end need not fall on a byte boundary.
+    remaining: usize,
 }
 
 impl From<Vec<u8>> for BitIter<std::vec::IntoIter<u8>> {
@@ -150,6 +154,7 @@ impl From<Vec<u8>> for BitIter<std::vec::IntoIter<u8>> {
             // from the underlying iterator
             read_bits: 8,
             total_read: 0,
+            remaining: usize::MAX,
         }
     }
 }
@@ -163,6 +168,7 @@ impl<'a> From<&'a [u8]> for BitIter<std::iter::Copied<std::slice::Iter<'a, u8>>>
             // from the underlying iterator
             read_bits: 8,
             total_read: 0,
+            remaining: usize::MAX,
         }
     }
 }
@@ -176,6 +182,7 @@ impl<I: Iterator<Item = u8>> From<I> for BitIter<I> {
             // from the underlying iterator
             read_bits: 8,
             total_read: 0,
+            remaining: usize::MAX,
         }
     }
 }
@@ -184,9 +191,15 @@ impl<I: Iterator<Item = u8>> Iterator for BitIter<I> {
     type Item = bool;
 
     fn next(&mut self) -> Option<bool> {
+        if self.remaining == 0 {
+            return None;
+        }
         if self.read_bits < 8 {
             self.read_bits += 1;
             self.total_read += 1;
+            if self.remaining != usize::MAX {
+                self.remaining -= 1;
+            }
             Some(self.cached_byte & (1 << (8 - self.read_bits as u8)) != 0)
         } else {
             self.cached_byte = self.iter.next()?;
@@ -197,7 +210,7 @@ impl<I: Iterator<Item = u8>> Iterator for BitIter<I> {
 
     fn size_hint(&self) -> (usize, Option<usize>) {
         let (lo, hi) = self.iter.size_hint();
-        let adj = |n| 8 - self.read_bits + 8 * n;
+        let adj = |n| core::cmp::min(8 - self.read_bits + 8 * n, self.remaining);
         (adj(lo), hi.map(adj))
     }
 }
@@ -231,6 +244,7 @@ impl<'a> BitIter<std::iter::Copied<std::slice::Iter<'a, u8>>> {
                 cached_byte: 0,
                 read_bits: 8,
                 total_read: 0,
+                remaining: end - start,
             }
         } else {
             BitIter {
@@ -238,6 +252,7 @@ impl<'a> BitIter<std::iter::Copied<std::slice::Iter<'a, u8>>> {
                 iter,
                 read_bits,
                 total_read: 0,
+                remaining: end - start,
             }
         }
     }
@@ -269,9 +284,15 @@ impl<I: Iterator<Item = u8>> BitIter<I> {
     /// Reads a byte from the iterator.
     pub fn read_u8(&mut self) -> Result<u8, EarlyEndOfStreamError> {
         debug_assert!(self.read_bits > 0);
+        if self.remaining < 8 {
+            return Err(EarlyEndOfStreamError);
+        }
         let cached = self.cached_byte;
         self.cached_byte = self.iter.next().ok_or(EarlyEndOfStreamError)?;
         self.total_read += 8;
+        if self.remaining != usize::MAX {
+            self.remaining -= 8;
+        }
 
         Ok(cached.checked_shl(self.read_bits as u32).unwrap_or(0)
             + (self.cached_byte >> (8 - self.read_bits)))
